@@ -18,31 +18,45 @@ import (
 func TestVerifFlightCacheReplay(t *testing.T) {
 	em := verifOpen(t)
 	defer em.Close()
-	cache, err := NewCache(time.Hour)
-	if err != nil {
-		t.Fatal(err)
+	// one Cache per object index named by the schedules ("ob"); all of them are handed the same key strings
+	var caches []*Cache
+	cacheOf := func(ob int) *Cache {
+		for len(caches) < ob {
+			c, err := NewCache(time.Hour)
+			if err != nil {
+				t.Fatal(err)
+			}
+			caches = append(caches, c)
+		}
+		return caches[ob-1]
 	}
 	for h, raw := range verifInput(t) {
 		var ops []verifFlightOp
 		if err := json.Unmarshal(raw, &ops); err != nil {
 			t.Fatal(err)
 		}
+		for i := range ops {
+			if ops[i].Ob < 1 {
+				ops[i].Ob = 1
+			}
+			cacheOf(ops[i].Ob)
+		}
 		s := &verifFlightSched{t: t, em: em}
 		s.invoke = func(c *verifFlightCall, fn func() (any, error)) (int, int, int) {
-			v, err := cache.Take(verifFlightKey(h, c.key), fn)
+			v, err := caches[c.obj-1].Take(verifFlightKey(h, c.key), fn)
 			return verifFlightVal(v), verifFlightErrCode(err), 2
 		}
 		em.Emit(verifEv{"e": "reset", "mode": "take"})
 		for _, op := range ops {
 			switch op.Op {
 			case "call":
-				s.start(op.K)
+				s.startOn(op.Ob, op.K)
 			case "rel":
-				s.release(op.K, op.O, "")
+				s.releaseOn(op.Ob, op.K, op.O, "")
 			case "del":
 				s.rest()
-				cache.Del(verifFlightKey(h, op.K))
-				em.Emit(verifEv{"e": "del", "k": op.K})
+				caches[op.Ob-1].Del(verifFlightKey(h, op.K))
+				em.Emit(verifEv{"e": "del", "o": op.Ob, "k": op.K})
 			}
 			s.rest()
 		}
